@@ -78,7 +78,10 @@ class ManualExecutor(Executor):
             def cancel_and_ack():
                 r = inner_cancel()
                 if r and fut._state == "CANCELLED":
-                    fut.set_running_or_notify_cancel()
+                    try:
+                        fut.set_running_or_notify_cancel()
+                    except RuntimeError:
+                        pass        # a concurrent cancel() of the harness acknowledged it first
                 return r
 
             fut.cancel = cancel_and_ack
